@@ -156,6 +156,20 @@ theorem abAll_ok {s : Subj} {f : Facts} (h : abAll s f = .ok ()) :
     sequencer s f = .ok () := by
   simpa only [abAll, allChecks, List.map, firstErr_cons, firstErr_nil, and_true] using h
 
+theorem txHash_ok {c : Cand} {f : Facts} (h : txHash c f = .ok ()) :
+    c.b.hz = false ∧ f.hok = true := by
+  simp only [txHash, firstErr_cons, firstErr_nil, chk_ok, and_true] at h
+  exact ⟨h.1, by simpa using h.2⟩
+
+theorem txDescendantBlocks_user_ok {c : Cand} {f : Facts} (h : txDescendantBlocks c f = .ok ())
+    (he : c.b.emb = false) : c.descs = [] := by
+  have hcr : isContractReceive c.b = false := by simp [isContractReceive, he]
+  simp only [txDescendantBlocks, hcr, Bool.false_eq_true, if_false, firstErr_cons, chk_ok] at h
+  have h1 := h.1
+  simp only [Bool.not_false, Bool.true_and] at h1
+  have : ¬ c.descs.length > 0 := by simpa using h1
+  exact List.eq_nil_of_length_eq_zero (by omega)
+
 theorem isSend_isReceive_of_type {b : Blk} :
     (b.bt = Gen.BlockTypeUserSend → isSend b = true ∧ isReceive b = false) ∧
     (b.bt = Gen.BlockTypeUserReceive → isSend b = false ∧ isReceive b = true) ∧
